@@ -383,6 +383,7 @@ func genDiffWorld(r *rand.Rand, c *CliCase, l Layout, vmode int) {
 func genSumWorld(r *rand.Rand, c *CliCase, l Layout, withDest bool) {
 	nitems := int(between(r, 1, 3))
 	plus := chance(r, 0.15)
+	sub := !plus && chance(r, 0.08) // the files live in a sub-directory of the item
 	for it := 0; it < nitems; it++ {
 		item := fmt.Sprintf("grp/it%d", it)
 		linkDir := chance(r, 0.06) // the item directory is a symbolic link
@@ -398,6 +399,9 @@ func genSumWorld(r *rand.Rand, c *CliCase, l Layout, withDest bool) {
 			name := fmt.Sprintf("s%d.wsp", f)
 			if plus {
 				name = fmt.Sprintf("s+%d&=.wsp", f)
+			}
+			if sub {
+				name = "sub/" + name
 			}
 			c.Files = append(c.Files, WFile{Base: "src", Rel: item + "/" + name, Layout: l, Fills: genFills(r, l, 1, 0.7), Link: chance(r, 0.05), LinkDir: linkDir})
 		}
@@ -418,6 +422,9 @@ func genSumWorld(r *rand.Rand, c *CliCase, l Layout, withDest bool) {
 	srcPat := pick(r, "*.wsp", "s*.wsp", "s0.wsp")
 	if plus {
 		srcPat = pick(r, "*.wsp", "s+*.wsp", "s+0&=.wsp")
+	}
+	if sub {
+		srcPat = pick(r, "sub/*.wsp", "*/s0.wsp", "sub/s0.wsp", "*/*.wsp")
 	}
 	cmd := Cmd{Item: pick(r, "grp/it*", "grp/it0", "grp/*"), Src: srcPat, Archive: genArchiveSel(r, len(l.Archs)), ViaParse: chance(r, 0.3), NoHeader: chance(r, 0.3)}
 	if withDest {
